@@ -36,7 +36,7 @@ func TestVerifC18Signals(t *testing.T) {
 		return
 	}
 	L := ev.Begin("C18", "c18-signals", "model_checking",
-		"explicit enumeration of every signal history over {SIGHUP, SIGTERM, SIGINT} up to length 2 (thorough 3), each replayed against the real main() in a child process (static registry, real listeners, proxy.shutdownwait=6s) with one request in flight that the upstream answers only after the whole history was delivered; barriers are causal (child log lines 'Caught SIG..', handler-entered, listener-refuses-connect). oracle: SIGHUP before the first exit signal leaves the proxy serving; after the first SIGTERM/SIGINT new connections are refused, the in-flight request completes normally whatever further signals arrive during the drain, and the process ends by itself with status 0 within the wait; plus one run with proxy.deregistergraceperiod=3s, wait 4s and a request that ends 5.5s after the signal (the wait is owed after the grace period). non-trivial = histories with a signal after the shutdown began")
+		"explicit enumeration of every signal history over {SIGHUP, SIGTERM, SIGINT} up to length 2 (thorough 3), each replayed against the real main() in a child process (static registry, real listeners, proxy.shutdownwait=6s) with one request in flight that the upstream answers only after the whole history was delivered; barriers are causal (child log lines 'Caught SIG..', handler-entered, listener-refuses-connect). oracle: SIGHUP before the first exit signal leaves the proxy serving; after the first SIGTERM/SIGINT new connections are refused, the in-flight request completes normally whatever further signals arrive during the drain, and the process ends by itself with status 0 within the wait; plus one run with proxy.deregistergraceperiod=3s, wait 4s and a request that ends 5.5s after the signal (the wait is owed after the grace period); plus one run with a tcp-dynamic listener (refresh 200ms, wait 3s) and a TCP connection in flight: the dynamic port serves no new connection at any probe (every 20ms) during the 2s after it closed. non-trivial = histories with a signal after the shutdown began")
 	sigs := []syscall.Signal{syscall.SIGHUP, syscall.SIGTERM, syscall.SIGINT}
 	maxLen := ev.EnvInt("C18_SIGNALS", 2)
 	if ev.Thorough() {
@@ -109,6 +109,19 @@ func TestVerifC18Signals(t *testing.T) {
 		L.Sample(d)
 		if sig != "" {
 			L.Violation(sig+"/with-deregister-grace-period", d)
+		}
+	}
+	// a tcp-dynamic listener (opened by a loop that follows the routing table every 200ms) with a
+	// connection in flight: once the shutdown began the port stays closed for the whole wait
+	{
+		sig, d := c18RunDynamic()
+		L.Case()
+		L.NontrivialKey("tcp-dynamic")
+		transitions++
+		L.Outcome(fmt.Sprint(d["outcome"]))
+		L.Sample(d)
+		if sig != "" {
+			L.Violation(sig+"/tcp-dynamic", d)
 		}
 	}
 	L.AddStates(int64(len(states)))
@@ -381,6 +394,230 @@ func c18RunSignalsOnce(h []syscall.Signal, wait, grace string, hold time.Duratio
 	states = append(states, "down")
 	d["outcome"] = "drained, exit 0"
 	return "", d, states
+}
+
+func c18RunDynamic() (sig string, d map[string]interface{}) {
+	for attempt := 0; ; attempt++ {
+		sig, d = c18RunDynamicOnce()
+		if sig != "child-did-not-come-up" {
+			return
+		}
+		if attempt == 2 {
+			panic("VERIF-INFRA: fabio child with a tcp-dynamic listener did not come up in 3 attempts: " + fmt.Sprint(d["startup"]))
+		}
+	}
+}
+
+func c18RunDynamicOnce() (sig string, d map[string]interface{}) {
+	d = map[string]interface{}{"signals": []string{"SIGTERM"}, "shutdown_wait": "3s", "listener": "tcp-dynamic;refresh=200ms"}
+	entered := make(chan struct{}, 16)
+	release := make(chan struct{})
+	released := false
+	defer func() {
+		if !released {
+			close(release)
+		}
+	}()
+	upl, err := net.Listen("tcp", "127.0.0.1:0")
+	if err != nil {
+		panic(err)
+	}
+	defer upl.Close()
+	go func() {
+		for {
+			c, err := upl.Accept()
+			if err != nil {
+				return
+			}
+			go func() {
+				defer c.Close()
+				b := make([]byte, 4)
+				if _, err := io.ReadFull(c, b); err != nil {
+					return
+				}
+				if string(b) == "held" {
+					entered <- struct{}{}
+					<-release
+					io.WriteString(c, "done")
+					return
+				}
+				io.WriteString(c, "pong")
+			}()
+		}
+	}()
+	free := func() string {
+		l, err := net.Listen("tcp", "127.0.0.1:0")
+		if err != nil {
+			panic(err)
+		}
+		defer l.Close()
+		return l.Addr().String()
+	}
+	proxyAddr, uiAddr, dynAddr := free(), free(), free()
+	_, dynPort, _ := net.SplitHostPort(dynAddr)
+	args, _ := json.Marshal([]string{"fabio", "-insecure", "-log.level", "INFO", "-registry.backend", "static",
+		"-registry.static.routes", "route add tcpsvc :" + dynPort + " tcp://" + upl.Addr().String() + "\n",
+		"-proxy.addr", proxyAddr + ",127.0.0.1:0;proto=tcp-dynamic;refresh=200ms", "-ui.addr", uiAddr, "-proxy.shutdownwait", "3s"})
+	cmd := exec.Command(os.Args[0], "-test.run", "^TestVerifC18Signals$", "-test.timeout", "120s")
+	cmd.Env = append([]string{"VERIF_C18_CHILD=" + string(args)}, c18EnvWithout("VERIF_OUT", "VERIF_C18_CHILD")...)
+	stderr, err := cmd.StderrPipe()
+	if err != nil {
+		panic(err)
+	}
+	cmd.Stdout = io.Discard
+	if err := cmd.Start(); err != nil {
+		panic("VERIF-INFRA: " + err.Error())
+	}
+	var lmu sync.Mutex
+	var logged []string
+	logDone := false
+	go func() {
+		sc := bufio.NewScanner(stderr)
+		sc.Buffer(make([]byte, 1<<20), 16<<20)
+		for sc.Scan() {
+			lmu.Lock()
+			logged = append(logged, sc.Text())
+			lmu.Unlock()
+		}
+		lmu.Lock()
+		logDone = true
+		lmu.Unlock()
+	}()
+	exited := make(chan error, 1)
+	go func() { exited <- cmd.Wait() }()
+	defer func() { cmd.Process.Kill() }()
+	cursor := 0
+	waitLine := func(sub string) bool {
+		deadline := time.Now().Add(60 * time.Second)
+		for {
+			lmu.Lock()
+			for cursor < len(logged) {
+				l := logged[cursor]
+				cursor++
+				if strings.Contains(l, sub) {
+					lmu.Unlock()
+					return true
+				}
+			}
+			done := logDone
+			lmu.Unlock()
+			if done || time.Now().After(deadline) {
+				return false
+			}
+			time.Sleep(2 * time.Millisecond)
+		}
+	}
+	// one exchange through the dynamic port: "pong" means a new connection was accepted and served
+	probe := func() string {
+		c, err := net.DialTimeout("tcp", "127.0.0.1:"+dynPort, time.Second)
+		if err != nil {
+			return "refused"
+		}
+		defer c.Close()
+		c.SetDeadline(time.Now().Add(500 * time.Millisecond))
+		io.WriteString(c, "ping")
+		b := make([]byte, 4)
+		if _, err := io.ReadFull(c, b); err != nil {
+			return "not served"
+		}
+		return string(b)
+	}
+	up := false
+	for i := 0; i < 24000 && !up; i++ {
+		if probe() == "pong" {
+			up = true
+		} else {
+			lmu.Lock()
+			gone := logDone
+			lmu.Unlock()
+			if gone {
+				break
+			}
+			time.Sleep(5 * time.Millisecond)
+		}
+	}
+	if !up {
+		d["startup"] = "dynamic port not serving"
+		return "child-did-not-come-up", d
+	}
+	inflight := make(chan string, 1)
+	go func() {
+		c, err := net.DialTimeout("tcp", "127.0.0.1:"+dynPort, time.Second)
+		if err != nil {
+			inflight <- "error: " + err.Error()
+			return
+		}
+		defer c.Close()
+		io.WriteString(c, "held")
+		c.SetReadDeadline(time.Now().Add(30 * time.Second))
+		b, err := io.ReadAll(c)
+		if err != nil {
+			inflight <- "error: " + err.Error() + " after " + string(b)
+			return
+		}
+		inflight <- string(b)
+	}()
+	select {
+	case <-entered:
+	case <-time.After(20 * time.Second):
+		panic("VERIF-INFRA: connection never reached the upstream")
+	}
+	if err := cmd.Process.Signal(syscall.SIGTERM); err != nil {
+		d["outcome"] = "process gone before the signal"
+		return "process-ended-before-the-shutdown-was-requested", d
+	}
+	if !waitLine("Caught SIGTERM") {
+		d["outcome"] = "exit signal not handled"
+		return "exit-signal-not-handled", d
+	}
+	closed := false
+	for k := 0; k < 4000 && !closed; k++ {
+		if probe() != "pong" {
+			closed = true
+		} else {
+			time.Sleep(5 * time.Millisecond)
+		}
+	}
+	if !closed {
+		d["outcome"] = "dynamic port still serving after the exit signal"
+		return "listener-accepts-after-shutdown-began", d
+	}
+	// ten refresh intervals inside the wait; the connection in flight ends half way
+	start := time.Now()
+	for time.Since(start) < 2*time.Second {
+		if !released && time.Since(start) > time.Second {
+			released = true
+			close(release)
+		}
+		if r := probe(); r == "pong" {
+			d["outcome"] = "dynamic port served a new connection " + time.Since(start).Round(time.Millisecond).String() + " after it had closed"
+			return "listener-reopened-during-the-drain", d
+		}
+		time.Sleep(20 * time.Millisecond)
+	}
+	select {
+	case r := <-inflight:
+		d["in_flight_result"] = r
+		if r != "done" {
+			d["outcome"] = "in-flight connection cut"
+			return "in-flight-connection-cut-during-the-drain", d
+		}
+	case <-time.After(30 * time.Second):
+		d["outcome"] = "in-flight connection never completed"
+		return "in-flight-connection-never-completed", d
+	}
+	select {
+	case err := <-exited:
+		if err != nil {
+			d["outcome"], d["exit"] = "abnormal exit", err.Error()
+			return "process-did-not-end-its-shutdown-normally", d
+		}
+	case <-time.After(30 * time.Second):
+		d["outcome"] = "process still running after the wait"
+		return "process-did-not-exit-within-the-wait", d
+	}
+	d["outcome"] = "drained, exit 0"
+	return "", d
 }
 
 func c18EnvWithout(keys ...string) []string {
